@@ -27,7 +27,7 @@ struct Worker { std::vector<Block> own, mailbox; bool finished = false; };
 struct Ctx {
     const sim::Plan *plan;
     struct aws_allocator *parent;
-    struct aws_allocator *tr;
+    struct aws_allocator *tr = nullptr;
     int level = 1;
     Worker w[MAXW + 1];
     int nworkers = 1;
@@ -42,6 +42,7 @@ struct Ctx {
     std::vector<size_t> dump_sizes;
     int dump_stack_entries = 0;
     bool dump_begin = false, dump_end = false;
+    std::map<int, int> in_dump; // per simulated thread: inside aws_mem_tracer_dump
     struct aws_logger logger;
     struct aws_log_formatter formatter;
     struct aws_log_channel channel;
@@ -52,6 +53,10 @@ static Ctx *g = nullptr;
 int rec_write(struct aws_log_writer *w, const struct aws_string *out) {
     (void)w;
     Ctx &c = *g;
+    // a log sink may ask the tracer for its totals (e.g. to stamp every line with the outstanding byte count). That is legal outside a dump
+    // (the dump logs with the tracer's lock held, which is documented); the query takes the tracer's lock, so a tracer that logs from
+    // inside its other critical sections deadlocks against itself.
+    if (c.tr && !c.in_dump[sim::self()]) { (void)aws_mem_tracer_bytes(c.tr); (void)aws_mem_tracer_count(c.tr); }
     if (!c.capturing) return AWS_OP_SUCCESS;
     std::string line((const char *)out->bytes, out->len);
     size_t pos = line.find(" - ALLOC ");
@@ -66,6 +71,8 @@ int rec_write(struct aws_log_writer *w, const struct aws_string *out) {
 }
 void rec_clean(struct aws_log_writer *w) { (void)w; }
 struct aws_log_writer_vtable g_vt = {rec_write, rec_clean};
+
+#define DUMP(c) do { (c).in_dump[sim::self()]++; aws_mem_tracer_dump((c).tr); (c).in_dump[sim::self()]--; } while (0)
 
 void check_new(Ctx &c, uint8_t *p, size_t size, const char *what) {
     if (!p) sim::violation("c17:null", "%s(%zu) returned NULL", what, size);
@@ -101,7 +108,7 @@ void quiescent_check(Ctx &c, const char *where, bool dump) {
         c.dump_sizes.clear();
         c.dump_stack_entries = 0;
         c.dump_begin = c.dump_end = false;
-        aws_mem_tracer_dump(c.tr);
+        DUMP(c);
         c.capturing = false;
         c.dumps++;
         if (aws_mem_tracer_bytes(c.tr) != bytes || aws_mem_tracer_count(c.tr) != count)
@@ -234,7 +241,7 @@ void run_worker(Ctx &c, int idx) {
             }
             case OP_YIELD: sim::yield(); break;
             case OP_QUERY: (void)aws_mem_tracer_bytes(c.tr); (void)aws_mem_tracer_count(c.tr); break;
-            case OP_DUMP: aws_mem_tracer_dump(c.tr); sim::probe("concurrent_dump"); break;
+            case OP_DUMP: DUMP(c); sim::probe("concurrent_dump"); break;
             case OP_CHECKPOINT: {
                 if (c.nworkers == 1) { quiescent_check(c, "checkpoint", op.a != 0); break; }
                 uint64_t gen = c.generation;
@@ -331,13 +338,15 @@ RunInfo run(const sim::Plan &plan) {
     if (kept.empty()) {
         if (aws_mem_tracer_bytes(c.tr) != 0) sim::violation("c17:bytes", "everything released but the tracer reports %zu bytes", aws_mem_tracer_bytes(c.tr));
         if (aws_mem_tracer_count(c.tr) != 0) sim::violation("c17:count", "everything released but the tracer reports %zu allocations", aws_mem_tracer_count(c.tr));
-        aws_mem_tracer_dump(c.tr); // with nothing live: must be a no-op
+        DUMP(c); // with nothing live: must be a no-op
     } else {
         quiescent_check(c, "before destroying the tracer with live allocations", true);
         sim::probe("tracer_destroyed_with_live_allocations");
     }
     size_t parent_live_before = simalloc::live_count();
-    struct aws_allocator *back = aws_mem_tracer_destroy(c.tr);
+    struct aws_allocator *dying = c.tr;
+    c.tr = nullptr; // the sink stops querying
+    struct aws_allocator *back = aws_mem_tracer_destroy(dying);
     if (back != c.parent) sim::violation("c17:destroy", "aws_mem_tracer_destroy did not return the wrapped allocator");
     for (const Block &b : kept) {
         size_t bs = simalloc::block_size(b.p); // may be larger than the logical size (a shrinking realloc without mem_realloc keeps the block)
